@@ -379,6 +379,28 @@ def rule_saturation(ctx, F):
     ctx.floor("functions with a local saturated to UINT32_MAX", n, 5)
 
 
+def rule_pending(ctx, F):
+    """P8: how a reused subtree on the stack is found again for break-down.  Walking down the stack,
+    extras are transparent: only a non-extra subtree counts, and only a non-extra, non-pending one (or a
+    link without subtree) ends the "still pending" state; the pop happens exactly for a counted pending
+    subtree."""
+    fn = ctx.need_fn(F, "stack__iter", "P8")
+    if fn:
+        clr = [pt for pt, n in find(fn, "next_iterator->is_pending = 0")]
+        cnt = [pt for pt in __import__("C06").incs(fn, "next_iterator->subtree_count")]
+        ctx.floor("stores clearing is_pending in stack__iter", len(clr), 2)
+        ctx.gate("P8", fn, clr, [("`pending` ends only at a non-extra subtree (extras on top of a reused node are transparent)", [("ts_subtree_extra(link.subtree)", False), ("link.subtree.ptr", False)]),
+                                 ("…that is not itself pending", [("link.is_pending", False), ("link.subtree.ptr", False)])], accept_desc="ending the pending state")
+        ctx.gate("P8", fn, cnt, [("only non-extra subtrees are counted", [("ts_subtree_extra(link.subtree)", False), ("link.subtree.ptr", False)])], accept_desc="counting a subtree")
+    fn = ctx.need_fn(F, "pop_pending_callback", "P8")
+    if fn:
+        pops = [pt for pt, e in fn.points() if e.get("k") == "ret" and strip(e["e"]).get("k") in ("bin", "int") and "StackActionPop" in show(e["e"])]
+        if not pops:
+            pops = [pt for pt, e in fn.points() if e.get("k") == "ret" and strip(e["e"]).get("k") == "int" and strip(e["e"]).get("v") == 3]
+        ctx.floor("`pop` verdicts of pop_pending_callback", len(pops), 1)
+        ctx.gate("P8", fn, pops, [("a pop happens only for a pending entry", "iterator->is_pending", True), ("…once one subtree was counted", "iterator->subtree_count >= 1", True)], accept_desc="popping the pending subtree")
+
+
 def rule_diff_cursor(ctx, F):
     """P7: the cursor into the included-range differences (which vetoes reuse of nodes whose text changed
     inclusion) only moves past a difference that ends at or before the parse position; the reuse test
@@ -419,6 +441,7 @@ def run(ctx):
         rules_gate_state(ctx, F)
         rule_saturation(ctx, F)
         rule_diff_cursor(ctx, F)
+        rule_pending(ctx, F)
     import rsrules
     rsrules.c01_rust(ctx)
     return ctx.finish(
